@@ -4,6 +4,7 @@ Helper lemmas for C20: `Notification -> Packet -> Protocol::write` (`Model/Encod
 import Model.Encode
 import Proofs.Lemmas.Codec.V4
 import Proofs.Lemmas.Codec.V5
+import Proofs.Lemmas.Topic
 
 deriving instance DecidableEq for Except
 
@@ -260,22 +261,40 @@ theorem forward_wf_v5 (k : Copy) {p : Router.Pub} {extra : Props} (h : PubFacts 
     · simp_all
     · simp_all
 
+/-- the broker's `V4::write` drops the MQTT 5 properties of a PUBLISH (`Packet::Publish(publish, _)`) -/
+theorem v4_encode_broker_drops_props (dup : Bool) (qos : QoS) (retain : Bool) (topic : Bytes)
+    (pkid : Nat) (payload : Bytes) (props : Option Props) :
+    V4.encode .broker (.publish dup qos retain topic pkid payload props) =
+      V4.encode .broker (.publish dup qos retain topic pkid payload none) := by
+  cases props <;> simp [V4.encode, V4.encParts]
+
+/-- the property-less v4 PUBLISH of a forward is a well-formed packet, whether or not the forward
+    carries properties (the v5 length bound of `PubFacts` counts at least one byte for them) -/
 theorem forward_wf_v4 (k : Copy) {p : Router.Pub} {extra : Props} (h : PubFacts p extra)
-    (hp : p.hasProps = false) (hutf : k = .client → validUtf8 p.topic = true) :
+    (hutf : k = .client → validUtf8 p.topic = true) :
     V4.wf k (.publish p.dup (qosOf p.qos) p.retain p.topic (if p.qos = 0 then 0 else p.pkid)
       p.payload none) = true := by
   have hq := qosOf_q0 p.qos
   have hlen := h.len
   have hpk := h.pkid
   have hpk0 := h.pkid0
-  simp only [forwardProps_eq, hp] at hlen
+  have hpl := V5.propsLen_pos (forwardProps p extra)
   simp only [V4.wf, Bool.and_eq_true, decide_eq_true_eq]
   refine ⟨⟨⟨⟨rfl, ?_⟩, ?_⟩, ?_⟩, ?_⟩
   · split <;> omega
   · rw [hq]; split <;> simp_all
   · cases k <;> simp_all [V4.strOk, h.topic]
-  · simp only [V5.publishLen, V5.propsLen] at hlen
+  · simp only [V5.publishLen] at hlen
     cases k <;> simp only [V4.publishLen] <;> by_cases h0 : p.qos = 0 <;> simp_all <;> omega
+
+/-- what the broker's v4 link writes for a forward: the bytes of the property-less PUBLISH with the
+    packet id normalised for QoS 0 -/
+theorem v4_write_forward (extra : Props) (p : Router.Pub) (c : Option Router.Cursor) :
+    write .v4 (ofNotif extra (.forward p c)) =
+      V4.encode .broker (.publish p.dup (qosOf p.qos) p.retain p.topic
+        (if p.qos = 0 then 0 else p.pkid) p.payload none) := by
+  simp only [ofNotif, write, DNotif.toPacket, protocolWrite]
+  rw [v4_encode_broker_drops_props, v4_encode_publish_norm, pkid_norm]
 
 /-! ### pass-through properties -/
 
@@ -436,4 +455,99 @@ theorem nlookup_ninsert_same {β} (k : Nat) (v : β) (l : List (Nat × β)) :
   | none => simp [nlookup_append_new k v l h]
   | some w => simp [nlookup_map_replace k v l (by simp [h])]
 
+/-- `String::from_utf8` is injective: the decoded string determines the bytes -/
+theorem utf8?_inj {a b : Bytes} {s : String} (ha : Router.utf8? a = some s)
+    (hb : Router.utf8? b = some s) : a = b := by
+  unfold Router.utf8? String.fromUTF8? at ha hb
+  split at ha
+  · split at hb
+    · cases ha
+      have := congrArg String.toByteArray (Option.some.inj hb)
+      simp only [String.fromUTF8] at this
+      have := congrArg ByteArray.data this
+      simp at this
+      exact this.symm
+    · cases hb
+  · cases ha
+
 end Encode
+
+namespace Topic
+
+/-! ### a filter without wildcards matches only itself -/
+
+/-- inverse of `splitLevels`: the levels joined with '/' -/
+def joinLevels : List Level → Str
+  | [] => []
+  | [l] => l
+  | l :: l' :: ls => l ++ '/' :: joinLevels (l' :: ls)
+
+theorem joinLevels_splitLevels (s : Str) : joinLevels (splitLevels s) = s := by
+  induction s with
+  | nil => rfl
+  | cons c cs ih =>
+    unfold splitLevels
+    split
+    · next hc =>
+      subst hc
+      cases hs : splitLevels cs with
+      | nil => exact absurd hs (splitLevels_ne_nil cs)
+      | cons l ls => rw [hs] at ih; simp [joinLevels, ih]
+    · cases hs : splitLevels cs with
+      | nil => exact absurd hs (splitLevels_ne_nil cs)
+      | cons l ls =>
+        rw [hs] at ih
+        cases ls with
+        | nil => simpa [joinLevels] using ih
+        | cons l' ls' => simp only [joinLevels] at ih ⊢; rw [← ih]; simp
+
+theorem splitLevels_inj {s t : Str} (h : splitLevels s = splitLevels t) : s = t := by
+  rw [← joinLevels_splitLevels s, ← joinLevels_splitLevels t, h]
+
+/-- no level of a string without '+' and '#' is a wildcard level -/
+theorem levels_plain_of_no_wildcards {f : Str} (hf : hasWildcards f = false) :
+    ∀ l ∈ splitLevels f, l ≠ ['+'] ∧ l ≠ ['#'] := by
+  simp only [hasWildcards, Bool.or_eq_false_iff, List.contains_eq_mem, decide_eq_false_iff_not] at hf
+  intro l hl
+  constructor
+  · intro e; subst e
+    exact hf.1 ((mem_split '+' (by decide) f).mpr ⟨_, hl, by simp⟩)
+  · intro e; subst e
+    exact hf.2 ((mem_split '#' (by decide) f).mpr ⟨_, hl, by simp⟩)
+
+/-- against filter levels without wildcards the loop accepts only the same levels -/
+theorem matchLoop_eq_of_plain (fs : List Level) : ∀ (ts : List Level),
+    (∀ l ∈ fs, l ≠ ['+'] ∧ l ≠ ['#']) → matchLoop ts fs = true → ts = fs := by
+  induction fs with
+  | nil =>
+    intro ts _ h
+    cases ts with
+    | nil => rfl
+    | cons t ts => simp [matchLoop] at h
+  | cons f fs ih =>
+    intro ts hfs h
+    have hf := hfs f (by simp)
+    unfold matchLoop at h
+    simp only [hf.2, if_false] at h
+    cases ts with
+    | nil => simp at h
+    | cons t ts' =>
+      simp only [hf.1, if_false] at h
+      by_cases ht : t = ['#']
+      · simp [ht] at h
+      · simp only [ht, if_false] at h
+        by_cases hft : f = t
+        · subst hft
+          simp only [ne_eq, not_true_eq_false, if_false] at h
+          rw [ih ts' (fun l hl => hfs l (by simp [hl])) h]
+        · simp [hft] at h
+
+/-- a filter without wildcards is matched only by the topic equal to it -/
+theorem matchesImpl_no_wildcards {t f : Str} (hf : hasWildcards f = false)
+    (h : matchesImpl t f = true) : t = f := by
+  unfold matchesImpl at h
+  split at h
+  · cases h
+  · exact splitLevels_inj (matchLoop_eq_of_plain _ _ (levels_plain_of_no_wildcards hf) h)
+
+end Topic
